@@ -402,6 +402,10 @@ func typeFacts(v Val, alloc string) []string {
 }
 
 func typeKey(t types.Type) string {
+	t = types.Unalias(t)
+	if b, ok := t.(*types.Basic); ok && b.Kind() < types.UntypedBool && b.Kind() != types.Invalid {
+		t = types.Typ[b.Kind()] // byte -> uint8, rune -> int32
+	}
 	s := types.TypeString(t, func(p *types.Package) string { return p.Path() })
 	s = strings.ReplaceAll(s, "github.com/ipld/go-storethehash", "~")
 	return s
